@@ -17,7 +17,8 @@ CONSTANT MaxN
 \* ---- trees over an alphabet of statement kinds and names
 Leaves == { [kind |-> "assign", n |-> "a", v |-> 1], [kind |-> "assign", n |-> "b", v |-> 2],
             [kind |-> "reduce", n |-> "a", v |-> 1], [kind |-> "pass", n |-> "", v |-> 0],
-            [kind |-> "alloc", n |-> "t", v |-> 0] }
+            [kind |-> "alloc", n |-> "t", v |-> 0],
+            [kind |-> "wcfg", n |-> "f", v |-> 1], [kind |-> "wcfg", n |-> "f", v |-> 2] }   \* PCfg.f = 1 / 2
 MkLeaf(l) == [kind |-> l.kind, n |-> l.n, v |-> l.v, body |-> << >>, orelse |-> << >>]
 
 RECURSIVE ForestsOf(_), TreesOf(_)
@@ -37,6 +38,7 @@ Hole == [k |-> "hole"]
 PA(n, v) == [k |-> "assign", n |-> n, v |-> v, body |-> << >>, orelse |-> << >>]
 PR(n) == [k |-> "reduce", n |-> n, v |-> 0, body |-> << >>, orelse |-> << >>]
 PAlloc(n) == [k |-> "alloc", n |-> n, v |-> 0, body |-> << >>, orelse |-> << >>]
+PW(n, v) == [k |-> "wcfg", n |-> n, v |-> v, body |-> << >>, orelse |-> << >>]     \* PCfg.<n> = v   (v = 0: `_`)
 PPass == [k |-> "pass", n |-> "_", v |-> 0, body |-> << >>, orelse |-> << >>]
 PFor(n, b) == [k |-> "for", n |-> n, v |-> 0, body |-> b, orelse |-> << >>]
 PIf(b, e) == [k |-> "if", n |-> "_", v |-> 0, body |-> b, orelse |-> e]
@@ -47,7 +49,7 @@ Patterns == <<
   << PA("a", 0), PA("b", 0) >>, << PA("a", 0), Hole, PA("b", 0) >>, << Hole, PA("b", 0) >>,
   << PA("a", 0), Hole >>, << PFor("_", << Hole, PA("b", 0) >>) >>, << PIf(<< PA("a", 0) >>, <<Hole>>) >>,
   << PFor("_", << PFor("_", <<Hole>>) >>) >>, << PPass, PPass >>, << PFor("i", <<Hole>>), PFor("j", <<Hole>>) >>,
-  << PIf(<< PPass >>, << >>) >> >>
+  << PIf(<< PPass >>, << >>) >>, << PW("f", 0) >>, << PW("f", 1) >>, << PW("f", 2), Hole >> >>
 
 \* ---- matching
 NameOK(pn, n) == pn = "_" \/ pn = n
@@ -62,7 +64,7 @@ MS(pats, i, ss, j) ==
        ELSE IF MStmt(pats[i], ss[j]) THEN MS(pats, i + 1, ss, j + 1) ELSE 0 - 1
 MStmt(pat, s) ==
   /\ pat.k = s.kind
-  /\ CASE s.kind \in {"assign", "reduce"} -> NameOK(pat.n, s.n) /\ (pat.v = 0 \/ pat.v = s.v)
+  /\ CASE s.kind \in {"assign", "reduce", "wcfg"} -> NameOK(pat.n, s.n) /\ (pat.v = 0 \/ pat.v = s.v)
        [] s.kind = "alloc" -> NameOK(pat.n, s.n)
        [] s.kind = "pass" -> TRUE
        [] s.kind = "for" -> NameOK(pat.n, s.n) /\ MS(pat.body, 1, s.body, 1) >= 0
